@@ -360,19 +360,27 @@ pub fn assign_random_shapes(m: &mut Model, rng: &mut Rng, used_prob: f64) {
 /// Give nonterminals and terminals names whose alphabetical order is unrelated to their
 /// declaration order (kiki sorts symbols, items and states by name).
 pub fn shuffle_names(m: &mut Model, rng: &mut Rng) {
-    const POOL: &[&str] = &["A", "B", "C", "D", "E", "F", "G", "H", "K", "L", "M", "P", "Q", "R", "U", "W", "X", "Y", "Z", "Aa", "Ab", "Zz", "B2", "B10", "M_", "_9Q"];
+    const POOL_PLAIN: &[&str] = &["A", "B", "C", "D", "E", "F", "G", "H", "K", "L", "M", "P", "Q", "R", "U", "W", "X", "Y", "Z", "Aa", "Ab", "Zz", "B2", "B10", "M_", "_9Q"];
+    // names that are prefixes of each other / differ only in digits, underscores or case
+    const POOL_CONFUSABLE: &[&str] = &["Expr", "Expr1", "Expr_1", "Expr2", "Expr10", "Exp", "EXPR", "Expr_", "E", "E1", "E_", "Ex", "List", "List1", "ListList", "L", "Li", "LIST", "List_", "_List", "__", "_1", "_1_", "X1", "X10", "X100"];
+    let confusable = rng.chance(0.3);
+    let POOL: &[&str] = if confusable { POOL_CONFUSABLE } else { POOL_PLAIN };
     let n = m.nts.len() + m.terms.len();
     if n > POOL.len() {
         return;
     }
     let mut names: Vec<&str> = POOL.to_vec();
     rng.shuffle(&mut names);
-    for (i, nt) in m.nts.iter_mut().enumerate() {
-        nt.name = format!("{}n", names[i]);
-    }
+    let (sn, st) = if confusable { ("", "") } else { ("n", "t") };
     let off = m.nts.len();
+    if confusable && names.iter().take(n).any(|x| *x == m.term_enum) {
+        return;
+    }
+    for (i, nt) in m.nts.iter_mut().enumerate() {
+        nt.name = format!("{}{sn}", names[i]);
+    }
     for (i, t) in m.terms.iter_mut().enumerate() {
-        t.name = format!("{}t", names[off + i]);
+        t.name = format!("{}{st}", names[off + i]);
     }
 }
 
